@@ -60,10 +60,23 @@ func (r *faultyReader) Read(p []byte) (int, error) {
 type recordingWriter struct {
 	buf    bytes.Buffer
 	writes int
+	failAt int // >=0: the peer goes away after this many bytes
 }
+
+var errPeerGone = errors.New("simulated write error: broken pipe")
 
 func (w *recordingWriter) Write(p []byte) (int, error) {
 	w.writes++
+	if w.failAt >= 0 {
+		room := w.failAt - w.buf.Len()
+		if room <= 0 {
+			return 0, errPeerGone
+		}
+		if len(p) > room {
+			w.buf.Write(p[:room])
+			return room, errPeerGone
+		}
+	}
 	return w.buf.Write(p)
 }
 
@@ -335,10 +348,11 @@ func drawRequest(w *simrt.Tape) (*request, string) {
 }
 
 type delivery struct {
-	what   string
-	data   []byte
-	errAt  int
-	chunky bool
+	what     string
+	data     []byte
+	errAt    int
+	chunky   bool
+	writerAt int // >0: the writer fails after this many bytes (the answer itself is not asserted)
 }
 
 func engineJSON(rc *RunCtx) *Outcome {
@@ -359,6 +373,12 @@ func engineJSON(rc *RunCtx) *Outcome {
 
 	// deliveries: the complete document (chunked), every truncation, sampled byte faults
 	var ds []delivery
+	if w.Bool(30) {
+		// the peer of an EARLIER request went away while its answer was being written: nothing is
+		// asserted about that answer, but the requests that follow in the same process must be
+		// answered as if nothing had happened
+		ds = append(ds, delivery{what: "writer-fails", data: doc, errAt: -1, chunky: true, writerAt: 1 + rc.S.Choose(40)})
+	}
 	ds = append(ds, delivery{what: "complete", data: doc, errAt: -1, chunky: true})
 	ds = append(ds, delivery{what: "trailing-garbage", data: append(append([]byte{}, doc...), []byte("\n}{ garbage 123")...), errAt: -1, chunky: true})
 	for cut := 0; cut < len(doc); cut++ {
@@ -400,7 +420,10 @@ func engineJSON(rc *RunCtx) *Outcome {
 			if d.chunky {
 				rd.chunks = func() int { return 1 + rc.S.Choose(9)*rc.S.Choose(9) }
 			}
-			wr := &recordingWriter{}
+			wr := &recordingWriter{failAt: -1}
+			if d.writerAt > 0 {
+				wr.failAt = d.writerAt
+			}
 			var escaped interface{}
 			var escStack string
 			func() {
@@ -414,6 +437,9 @@ func engineJSON(rc *RunCtx) *Outcome {
 			if escaped != nil {
 				o.fail("panic-escapes", "panic-escapes@"+crashSite(escStack), "RunSingleModelJSON panicked (%v) for a %s request, delivery %s: %s", escaped, tag, d.what, head64(d.data, 300))
 				return
+			}
+			if d.writerAt > 0 {
+				continue
 			}
 			resp, raw, perr := parseOneDocument(wr.buf.Bytes())
 			if perr != nil {
@@ -644,4 +670,95 @@ func describeInputs(r *request) string {
 		parts = append(parts, fmt.Sprintf("%s:%d", in.Name, len(in.Values)))
 	}
 	return strings.Join(parts, ",")
+}
+
+// engine "jsonconc": several complete, valid requests are answered concurrently (one task per
+// request under the seeded scheduler, also in the -race binary).  Every answer must equal the
+// direct run of its own request.
+func init() { engines["jsonconc"] = engineJSONConc }
+
+func engineJSONConc(rc *RunCtx) *Outcome {
+	o := &Outcome{}
+	w := rc.W
+	n := 2 + w.Choose(3)
+	type job struct {
+		req   *request
+		doc   []byte
+		split bool
+		out   recordingWriter
+		esc   interface{}
+	}
+	var jobs []*job
+	var names []string
+	for len(jobs) < n {
+		req, tag := drawRequest(w)
+		if tag != "complete" {
+			continue
+		}
+		doc, _ := json.Marshal(req)
+		jobs = append(jobs, &job{req: req, doc: doc, split: w.Bool(50), out: recordingWriter{failAt: -1}})
+		names = append(names, req.Name)
+	}
+	o.Sample = map[string]interface{}{"concurrent_requests": names}
+	s := simrt.Run(rc.T, simrt.Config{}, rc.S, func() {
+		done := make(chan int)
+		for i := range jobs {
+			j := jobs[i]
+			simrt.Go("jsonconc:request", func() {
+				simrt.Yield("jsonconc:start")
+				func() {
+					defer func() { j.esc = recover() }()
+					sim.RunSingleModelJSON(bytes.NewReader(j.doc), &j.out, j.split)
+				}()
+				simrt.Yield("jsonconc:done<")
+				done <- 1
+				simrt.Yield("jsonconc:done>")
+			})
+		}
+		for range jobs {
+			simrt.Yield("jsonconc:join<")
+			<-done
+			simrt.Yield("jsonconc:join>")
+		}
+	})
+	o.Sim = s
+	o.Nontrivial = s.Stats.Picks > 0
+	switch s.Outcome {
+	case "":
+	case "crash":
+		o.fail("process-crash", "crash@"+crashSite(s.Crash.Stack), "concurrent requests %v: panic in a cell goroutine: %s", names, s.Crash.Value)
+		return o
+	default:
+		o.fail("no-termination", s.Outcome, "%s; blocked: %v", s.Outcome, s.Blocked)
+		return o
+	}
+	for _, j := range jobs {
+		if j.esc != nil {
+			o.fail("panic-escapes", "concurrent/panic-escapes", "RunSingleModelJSON panicked (%v) while other requests were being answered concurrently (%v)", j.esc, names)
+			return o
+		}
+		resp, _, perr := parseOneDocument(j.out.buf.Bytes())
+		if perr != nil {
+			o.fail("not-one-document", "concurrent/not-one-document", "%s answered concurrently with %v: %v", j.req.Name, names, perr)
+			return o
+		}
+		desc := sim.Catalog[j.req.Name]().Description()
+		T, _, _ := firstLen(desc, j.req)
+		var ref directResult
+		var refPanic interface{}
+		sref := simrt.Run(rc.T, simrt.Config{}, simrt.ReplayTape(nil), func() {
+			defer func() { refPanic = recover() }()
+			ref = directRun(desc, j.req.Name, j.req, T)
+		})
+		if refPanic != nil || sref.Outcome != "" {
+			continue
+		}
+		if e := compareResults(desc, resp, ref, j.split); e != nil {
+			o.fail("differs-from-direct-run", "concurrent/differs", "%s answered concurrently with %v: %v", j.req.Name, names, e)
+			return o
+		}
+		o.Checks += len(ref.out)
+	}
+	o.probe("concurrent_requests_answered")
+	return o
 }
